@@ -107,6 +107,41 @@ def draw_multimap(rng, icvn, size_cap=120, structural=False, alphabet=V.PLAIN, c
     return md
 
 
+def draw_mixed(rng, size_cap=120, structural=False, alphabet=V.PLAIN, charset='E'):
+    """-> MultiDoc: two complete interchanges of *different* interchange versions (00401 then 00501 or the reverse), each from
+    its own map.  The reader takes its delimiters from the first ISA; the version (control map, 997/999) changes at the second."""
+    order = rng.choice([('00401', '00501'), ('00501', '00401')])
+    md = MultiDoc()
+    base = rng.randint(1, 9000)
+    for k, icvn in enumerate(order):
+        ents = [e for e in entries() if e['icvn'] == icvn and e['file'] not in EXCLUDED_MAPS]
+        entry = rng.choice(ents)
+        g = draw_doc(rng, entry, size_cap=max(25, size_cap // 2), structural=structural, alphabet=alphabet, charset=charset,
+                     multi=(1, 1, rng.choice([1, 1, 2])))
+        for s in g.segs:
+            s.inst = (('ISA_LOOP', k + 1),) + tuple(s.inst[1:])
+            if s.node.id == 'ISA':
+                s.vals[12] = '%09d' % (base + k)
+            elif s.node.id == 'IEA':
+                s.vals[1] = '%09d' % (base + k)
+        md.segs += g.segs
+        if k == 0:
+            md.knobs = g.knobs
+        md.ambiguous += g.ambiguous
+        md.skipped |= g.skipped
+        md.files.append(entry['file'])
+    si = 0
+    for n, s in enumerate(md.segs):
+        s.line = n + 1
+        if s.node.id == 'ST':
+            si += 1
+        if s.set_index is not None:
+            s.set_index = si
+    md.shape = (2, 1, 0)
+    md.icvns = list(order)
+    return md
+
+
 def draw_delims(rng, icvn, segs, charset='E'):
     """delimiters absent from the data; component separator / repetition inside the declared charset"""
     data = set()
